@@ -678,6 +678,8 @@ func replay(path string) {
 		s, _ := hex.DecodeString(str("hex"))
 		v, _ := m["vout"].(float64)
 		checkBytes("replay", bl("compressed"), s, uint32(v))
+	case "undo":
+		checkUndo("replay", undoFromJSON(m))
 	case "snap":
 		sc := &snapCase{Compressed: bl("compressed"), ViaCommit: bl("via_commit")}
 		h, _ := m["height"].(float64)
@@ -732,10 +734,17 @@ func main() {
 	stage("records", runRecords)
 	stage("malformed", runMalformed)
 	stage("snapshots", runSnapshots)
+	if r.Violations() == 0 {
+		stage("undo", runUndo)
+	} else {
+		// CommitBlockTxs / UndoBlockTxs work in goroutines of their own: a panic there (e.g. a record that no longer decodes)
+		// cannot be recovered here and would take the failures already recorded with it
+		r.Hit("undo-stream-skipped(earlier streams already failed)")
+	}
 	r.Extra["noncanonical_keys_available"] = len(ncKeys)
 	r.Finish("corpus (boundaries named in the property's quantifier) + structured generator (genRec/genScript/genAmount, all from VERIF_SEED) + malformed-bytes stream; "+
-		"a case is distinct by its full input (amount / script / record line+mode / snapshot contents)",
+		"a case is distinct by its full input (amount / script / record line+mode / snapshot contents); undo stream: 1..10 records committed by one block, a subset of their outputs (none / one / random / all) spent by the next block which also adds records, that block undone, with the client's recycling allocator in steady state, a poisoning allocator and the Go heap, plain and compressed; one snapshot of 11..15 loader packs with concentrated keys reloaded under GOMAXPROCS 1/2/default",
 		"Each case runs on the real gocoin code; the property predicate (what was stored comes back: whole decode, single-output lookup, snapshot reload) is evaluated on the real results, "+
-			"and every real result (serialised bytes, decoded record, lookup, compressed script/amount, snapshot file bytes) is compared with the Lean model's. "+
+			"and every real result (serialised bytes, decoded record, lookup, compressed script/amount, snapshot file bytes, partly spent and undo-merged records) is compared with the Lean model's. "+
 			"Known finding "+keyNonCanon+": uncompressed P2PK keys with X or Y ≥ p are accepted by ParsePubkey/IsValid, compressed, and come back with reduced (and for Y ≥ p negated) coordinates.")
 }
